@@ -155,6 +155,14 @@ impl<FB: FrameBuffer> ZXScreen<FB> {
     /// if clocks < previous call clocks then discard processing
     pub fn process_clocks(&mut self, clocks: usize) {
         let blocks = BlocksCount::from_clocks(clocks, self.machine);
+        // beam position goes back when snapshot with its own frame clocks is loaded in the middle
+        // of the frame, rendering continues from that position
+        if blocks.lines < self.last_blocks.lines
+            || (blocks.lines == self.last_blocks.lines && blocks.columns < self.last_blocks.columns)
+        {
+            self.last_blocks = blocks;
+            return;
+        }
         // so, let's count of 8x1 blocks, which passed.
         let count = blocks.passed_from(&self.last_blocks);
         if count > 0 {
